@@ -188,6 +188,15 @@ def run(ctx):
     al = [bi for bi, t in f.calls(r"align\[Align\]$")]
     if not rs or not all(f.dominates(a, rs[0]) for a in al):
         r.violate("Lexer|reset-order", "Lexer::adjust_for_next_input resets lexeme_start before all ranges were aligned by it", f.loc())
+    # re-basing is unconditional: the ranges are live whenever the buffer is shifted (token_part_start is set before a token exists)
+    from ..mirlib import guarding_branches as _gb2
+    for owner_fn in ("Lexer::adjust_for_next_input[StateMachine]", "TagScanner::adjust_for_next_input[StateMachine]"):
+        g = mir.fn(owner_fn)
+        cond = [(callee_key(t), [g.deep(g.blocks[sb]["term"]["d"])[:60] for sb in _gb2(g, bi)]) for bi, t in g.calls(r"align\[Align\]$|Align::align$")]
+        cond = [(c, gs) for c, gs in cond if any(not gg.startswith("discr(") or "current_" in gg for gg in gs)]
+        r.inst(owner_fn.split("[")[0] + "|unconditional")
+        if cond:
+            r.violate(owner_fn.split("[")[0] + "|unconditional", f"{owner_fn.split('[')[0]} re-bases its stored positions only under a condition ({cond[0][1]}): a position recorded before the condition holds (token_part_start right after `<!`, before any token exists) keeps pointing into the previous buffer when a chunk ends there", g.loc())
     # exception check: every sequence arm enters sequence matching before its first look-ahead
     for st, s in aut.states.items():
         for l in s["leaves"]:
